@@ -101,6 +101,8 @@ def monitor_connect(case, result, ev):
     final = None           # reason why no further event may follow
     obj = None
     polled = True          # terminate() was consulted since the last presence check / response of the hold phase
+    xch_since_poll = 0     # live llc: link exchanges since terminate() was last consulted
+    xch_after_term = 0     # live llc: link exchanges after terminate() had returned true
     for e in ev:
         if e.startswith('startup:'):
             b = e.split(':')[1]
@@ -116,6 +118,17 @@ def monitor_connect(case, result, ev):
                 # a driver's UnsupportedTargetError is documented to be ignored by sense() with several targets
                 if not (e == '!raise:UnsupportedTargetError:sense' and ntargets != 1):
                     raised = e.split(':')[1]
+            elif e == '!xchg' and case.get('live') == 'llc' and not case.get('noterm'):
+                # "... or when the 'terminate' function returned a true value": the symmetry loop has to ask in
+                # every turn and to end with at most the DISC exchange once the answer was true
+                if terminated:
+                    xch_after_term += 1
+                    if xch_after_term > 2:
+                        bad('llc-runs-on-after-terminate', 'more than two link exchanges after terminate() returned true')
+                else:
+                    xch_since_poll += 1
+                    if xch_since_poll > 1:
+                        bad('hold-without-terminate-poll', 'terminate() is not consulted between two exchanges of the llcp run loop')
             elif e in ('!tag:1', '!llc:1', '!emu:1'):
                 b = {'!tag:1': 'rdwr', '!llc:1': 'llcp', '!emu:1': 'card'}[e]
                 if supplied(b, 'connect'):
@@ -171,6 +184,7 @@ def monitor_connect(case, result, ev):
             final = 'release'
         elif e.startswith('term:'):
             polled = True
+            xch_since_poll = 0
             if e == 'term:1':
                 terminated = True
                 if held is None:
@@ -350,19 +364,19 @@ def structures(tier, rng):
     return out
 
 
-def explore(sk, limits, domains, budget, rng=None, walks=0, live=False):
+def explore(sk, limits, domains, budget, rng=None, walks=0):
     """depth-first enumeration of every oracle answer (bounded by limits), or random walks.
     yields (result, events, concrete case)"""
     n = 0
     if walks:
         for _ in range(walks):
             ch = S.Chooser(rng=rng)
-            yield S.run_connect(dict(sk), chooser=ch, limits=limits, domains=domains, live=live)
+            yield S.run_connect(dict(sk), chooser=ch, limits=limits, domains=domains)
         return
     prefix = []
     while prefix is not None and n < budget:
         ch = S.Chooser(prefix)
-        yield S.run_connect(dict(sk), chooser=ch, limits=limits, domains=domains, live=live)
+        yield S.run_connect(dict(sk), chooser=ch, limits=limits, domains=domains)
         n += 1
         prefix = ch.next_prefix()
 
@@ -465,6 +479,18 @@ CORPUS = [
      'KeyboardInterrupt out of llc.run: False'),
     ({'card': {'startup': 'F', 'release': 1}, 'cbs': 'T', 'term': '0000', 'listen': 'f', 'emulate': '1', 'cardstep': 'ni'},
      'IOError in the card command loop: False'),
+    # live: real nfc.tag.activate - the activation command fails with a non-timeout communication error
+    ({'live': 'tag', 'ttype': 't4a', 'rdwr': {'targets': 'A', 'connect': 1, 'iterations': 1}, 'cbs': 'F', 'term': '000',
+      'sense': [['f'], ['f']], 'xchg': 'Xo'}, 'TransmissionError in the RATS exchange must not leave connect()'),
+    ({'live': 'tag', 'ttype': 't4a', 'rdwr': {'targets': 'A', 'connect': 1, 'iterations': 1}, 'cbs': 'F', 'term': '000',
+      'sense': [['f'], ['f']], 'xchg': 'Po'}, 'ProtocolError in the RATS exchange must not leave connect()'),
+    ({'live': 'tag', 'ttype': 't4b', 'rdwr': {'targets': 'B', 'connect': 1, 'iterations': 1}, 'cbs': 'F', 'term': '000',
+      'sense': [['f'], ['f']], 'xchg': 'Xo'}, 'TransmissionError in the ATTRIB exchange must not leave connect()'),
+    # live: real LogicalLinkController - the application keeps datagrams queued while terminate() turns true
+    ({'live': 'llc', 'busy': 1, 'llcp': {'role': 'initiator', 'connect': 1, 'release': 1}, 'cbs': 'TN', 'term': '0001',
+      'llcact': 't'}, 'initiator, busy link: terminate() must be consulted in every turn of the run loop'),
+    ({'live': 'llc', 'busy': 1, 'llcp': {'role': 'target', 'connect': 1, 'release': 1}, 'cbs': 'TN', 'term': '0001',
+      'llcact': 't'}, 'target, busy link: terminate() must be consulted in every turn of the run loop'),
     # no terminate option at all (default lambda: False): the run ends by a return
     ({'rdwr': {'targets': 'A', 'connect': 1, 'iterations': 1}, 'cbs': 'F', 'noterm': 1, 'sense': [['f']], 'tagact': 't'},
      'no terminate option, on-connect false: the tag object is returned'),
@@ -486,7 +512,10 @@ def main():
                       'nfc.llcp.llc.LogicalLinkController); the real counterparts are the subject of C04-C12',
                       'callbacks do not raise; terminate() does not raise; wrong-typed callback results are '
                       'classified by truth value (DESIGN Appendix D)',
-                      'the model describes the tree with fixes/c18-return-true-after-release.diff applied']
+                      'the model describes the tree with fixes/c18-return-true-after-release.diff applied (commit ec7a677)',
+                      'live parts: real nfc.tag.activate / presence checks of every tag class over canned healthy-tag '
+                      'answers with injected Timeout/Transmission/Protocol errors; real LogicalLinkController over scripted '
+                      'MAC objects (the NFC-DEP layer itself is the subject of C04/C19)']
     ck.coq(gen=[], targets=['Proofs/ConnectSense.vo', 'Proofs/Connect.vo', 'Proofs/ConnectTrace.vo', 'Proofs/ConnectFuel.vo'], props='C18')
     mr = ck.model()
     if mr is None:
@@ -520,7 +549,9 @@ def main():
         lines.append(S.encode_connect(case))
         expect.append((res + ' | ' + ' '.join(vis), 'connect/' + kind, case))
         nontrivial = any(e.startswith(('discover:', 'connect:', 'release:', 'tag_activate', 'llc_activate', 'emulate')) for e in vis)
-        ck.case(lines[-1], nontrivial, None)
+        canon = lines[-1] if not case.get('live') else lines[-1] + ' %s %s %s %s %s' % (
+            case['live'], case.get('ttype'), case.get('busy'), case.get('xchg'), case.get('peer'))
+        ck.case(canon, nontrivial, None)
         ck.count(kind)
         for key, what in monitor_connect(case, res, ev):
             ck.violation('connect:' + key, what, {'case': case, 'result': res, 'events': ev})
@@ -574,17 +605,39 @@ def main():
             # the tree was cut: add random walks through the same tree
             for res, ev, case in explore(sk, LIM_DFS, DOM_DFS, 0, rng, walks=60 if quick else 600):
                 observe_connect('dfs-walk', res, ev, case)
-    # ------------------------------------------------------------------ live counterpart: the REAL nfc.tag.activate and the
-    # real Type3Tag presence check (polling over the scripted device: answers, disappears, device fails) in place
-    # of the scripted tag; the same model and monitor apply
-    for d, c, r in CBCOMB:
-        for extra in ({}, {'llcp': {'connect': c, 'release': r, 'role': 'target'}}):
-            sk = dict(extra, rdwr={'targets': 'XF', 'discover': d, 'connect': c, 'release': r, 'iterations': 1})
-            lim = dict(LIM_DFS, present=3)
+    # ------------------------------------------------------------------ live counterparts (quick and thorough)
+    # (a) the REAL nfc.tag.activate and the real presence checks for every tag type over the scripted device:
+    #     every exchange of the activation / presence check answers or fails with TimeoutError,
+    #     TransmissionError or ProtocolError, at each position
+    lim_tag = dict(LIM_DFS, term=3, cbs=3, sense=2, xchg=4)
+    for ttype, tg in (('t1', 'A'), ('t2', 'A'), ('t2n', 'A'), ('t4a', 'A'), ('t4b', 'B'),
+                      ('t3', 'F'), ('t3std', 'F'), ('t3lite', 'F'), ('t3lites', 'F')):
+        dom = dict(DOM_DFS, sense='nfpi' if tg == 'F' else 'nfi', cbs='TF', xchg='oXPT')
+        for d, c, r in ((0, 1, 1), (0, 0, 0), (1, 1, 1)) if quick else CBCOMB:
+            sk = {'live': 'tag', 'ttype': ttype, 'rdwr': {'targets': tg, 'discover': d, 'connect': c, 'release': r, 'iterations': 1}}
             n = 0
-            for res, ev, case in explore(sk, lim, dict(DOM_DFS, sense='nfpi'), 400 if quick else 20000, live=True):
-                observe_connect('live-t3t', res, ev, case)
+            for res, ev, case in explore(sk, lim_tag, dom, 250 if quick else 30000):
+                observe_connect('live-tag', res, ev, case)
                 n += 1
+            if n >= (250 if quick else 30000):
+                for res, ev, case in explore(sk, lim_tag, dom, 0, rng, walks=100 if quick else 2000):
+                    observe_connect('live-tag', res, ev, case)
+    # (b) the REAL LogicalLinkController (activate, run loops, collect, dispatch, terminate) over scripted MAC
+    #     objects, both roles, idle link and a link on which the application always has the next datagram
+    #     queued, the peer answering SYMM / DISC / nothing, terminate() turning true at every step
+    lim_llc = dict(LIM_DFS, term=8, cbs=2, llcact=2, peer=6)
+    dom_llc = dict(DOM_DFS, cbs='TF', llcact='tf', peer='sdx')
+    for role in ('initiator', 'target', None):
+        for busy in (1, 0):
+            for c, r in ((1, 1), (0, 0)):
+                sk = {'live': 'llc', 'busy': busy, 'llcp': {'role': role, 'connect': c, 'release': r}}
+                n = 0
+                for res, ev, case in explore(sk, lim_llc, dom_llc, 300 if quick else 30000):
+                    observe_connect('live-llc', res, ev, case)
+                    n += 1
+                if n >= (300 if quick else 30000):
+                    for res, ev, case in explore(sk, lim_llc, dom_llc, 0, rng, walks=100 if quick else 2000):
+                        observe_connect('live-llc', res, ev, case)
     # ------------------------------------------------------------------ random option dictionaries, long streams
     for _ in range(1500 if quick else 25000):
         sk = random_structure(rng)
